@@ -1003,3 +1003,117 @@ pub fn run_awfmt(c: &Case) -> Obs {
     };
     Obs::ok(obs, !script.is_empty()).with_verdict(v)
 }
+
+// ---------------------------------------------------------------------------------------------
+// wave 7, implementation-side oracle only (obs "-"): the ASYNC BGZF writer
+// (noodles_bgzf::r#async::io::Writer: staging buffer -> futures Buffer of deflate tasks on the
+// blocking pool -> Deflater -> FramedWrite -> destination) over the scripted AsyncWrite sink.
+//   abz seed script ops     ops = W<n> (write_all of n bytes) / F (flush), then shutdown()
+// An injected poll_write error must be returned by some awaited call (the caller stops at the first
+// Err); with no error event every call returns Ok and the destination holds exactly the file the
+// SYNC writer produces for the same calls + finish(); in every case the destination holds a prefix
+// of that file.
+
+struct AbzOut {
+    results: Vec<io::Result<()>>,
+    bytes: Vec<u8>,
+    polls: usize,
+    errors: usize,
+}
+
+fn run_abz_life(ops: &[BOp], seed: u64, script: Vec<AEv>) -> Outcome<AbzOut> {
+    let total: usize = ops.iter().map(|o| if let BOp::W(n) = o { *n } else { 0 }).sum();
+    let data = pattern(seed, total);
+    let sink = AFaultySink(Arc::new(Mutex::new(AState { script, ..Default::default() })));
+    let s2 = sink.clone();
+    let r = guarded(AssertUnwindSafe(|| {
+        block_on(async {
+            let mut results = Vec::new();
+            let mut w = bgzf::r#async::io::Writer::new(s2);
+            let mut at = 0;
+            for o in ops {
+                let r = match o {
+                    BOp::W(n) => {
+                        let b = &data[at..at + n];
+                        at += n;
+                        w.write_all(b).await
+                    }
+                    _ => w.flush().await,
+                };
+                let bad = r.is_err();
+                results.push(r);
+                if bad {
+                    return results;
+                }
+            }
+            results.push(w.shutdown().await);
+            results
+        })
+    }));
+    let st = sink.0.lock().unwrap();
+    match r {
+        Outcome::Panicked(p) => Outcome::Panicked(p),
+        Outcome::Done(results) => Outcome::Done(AbzOut { results, bytes: st.bytes.clone(), polls: st.polls, errors: st.errors }),
+    }
+}
+
+pub fn gen_abz(rng: &mut Rng, thorough: bool, w: &mut CaseWriter) {
+    for i in 0..(if thorough { 400 } else { 40 }) {
+        let mut ops = Vec::new();
+        for j in 0..rng.range(0, 5) {
+            ops.push(if rng.chance(1, 5) {
+                BOp::F
+            } else if i % 8 == 0 && j == 0 {
+                BOp::W(*rng.pick(&[MAX_BUF_SIZE - 1, MAX_BUF_SIZE, MAX_BUF_SIZE + 1, 2 * MAX_BUF_SIZE + 1]))
+            } else {
+                BOp::W(rng.below(80) as usize)
+            });
+        }
+        let seed = rng.next() >> 8;
+        let n = match run_abz_life(&ops, seed, vec![]) {
+            Outcome::Done(o) => o.polls,
+            _ => 1,
+        };
+        let sc = match i % 4 {
+            0 => {
+                let mut v = vec![AEv::A(usize::MAX >> 1); rng.below(n as u64) as usize];
+                v.push(AEv::E(code_kind(*rng.pick(INJECT))));
+                v
+            }
+            1 | 2 => {
+                let k = rng.below(n as u64 + 1) as usize;
+                gen_ascript(rng, n + 2, Some(k))
+            }
+            _ => gen_ascript(rng, 2 * n + 2, None),
+        };
+        w.push("abz", vec![seed.to_string(), fmt_ascript(&sc), fmt_bops(&ops)]);
+    }
+}
+
+pub fn run_abz(c: &Case) -> Obs {
+    let seed = c.u(0);
+    let script = parse_ascript(&c.args[1]);
+    let ops = parse_bops(&c.args[2]);
+    let out = match run_abz_life(&ops, seed, script.clone()) {
+        Outcome::Panicked(p) => return Obs::fail("-", "async-bgzf-panic-on-sink-error", p),
+        Outcome::Done(o) => o,
+    };
+    // the sync writer's file for the same calls
+    let mut sops = ops.clone();
+    sops.push(BOp::X);
+    let want = run_bops(&sops, seed, vec![]).bytes;
+    let all_ok = out.results.iter().all(|r| r.is_ok());
+    let res: Vec<String> = out.results.iter().map(ares).collect();
+    let v = if out.errors > 0 && all_ok {
+        Err(("async-bgzf-sink-error-swallowed".to_string(), format!("script={} results={res:?}", c.args[1])))
+    } else if out.errors == 0 && !all_ok {
+        Err(("async-bgzf-error-without-sink-error".to_string(), format!("script={} results={res:?}", c.args[1])))
+    } else if out.errors == 0 && out.bytes != want {
+        Err(("async-bgzf-differs-from-sync".to_string(), format!("script={} got {} want {} bytes", c.args[1], out.bytes.len(), want.len())))
+    } else if !want.starts_with(&out.bytes) {
+        Err(("async-bgzf-sink-not-a-prefix".to_string(), format!("script={} results={res:?}", c.args[1])))
+    } else {
+        Ok(())
+    };
+    Obs::ok("-", !script.is_empty() && !ops.is_empty()).with_verdict(v)
+}
